@@ -85,7 +85,9 @@ def semver_like(rng, sysi, strict=False):
 PEP_PRE = [b"a", b"b", b"rc", b"alpha", b"beta", b"c", b"pre", b"preview", b"A", b"RC", b"Beta"]
 PEP_POST = [b"post", b"rev", b"r", b"POST"]
 PEP_LOCAL = [b"abc", b"ABC", b"1", b"01", b"ubuntu.1", b"ubuntu-1", b"a_b", b"1.2", b"x.10", b"x.9", b"a..b",
-             b"18446744073709551616", b"18446744073709551615", b"9", b"10", b"2", b"20240101123456789012", b"x.9", b"x.20240101123456789012"]
+             b"18446744073709551616", b"18446744073709551615", b"9", b"10", b"2", b"20240101123456789012", b"x.9", b"x.20240101123456789012",
+             # segments after an alternative separator decide (seed C02-j)
+             b"ubuntu-2", b"ubuntu_2", b"ubuntu_1", b"abc-1", b"abc.1", b"abc-2", b"abc_2", b"x-10", b"x_9", b"a.b-c_2", b"a-b.c.1"]
 
 
 def pep440(rng, strict=False):
